@@ -25,6 +25,12 @@ Proof.
   split; [intros [t E]; discriminate | intros Hn; exfalso; apply (Hn (Z.min b d)); lia].
 Qed.
 
+(* both halves in one statement (C13_best_overlap_spec) *)
+Theorem best_overlap_spec a b c d :
+  (forall v, best_overlap a b c d = Ok v <-> (v = Z.min b d /\ a <= v /\ c <= v)) /\
+  ((exists t, best_overlap a b c d = Exc t) <-> (forall v, ~ (a <= v <= b /\ c <= v <= d))).
+Proof. split; [intros v; apply best_overlap_ok | apply best_overlap_exc]. Qed.
+
 (* the result is the greatest common element of the two ranges *)
 Lemma best_overlap_greatest a b c d v :
   best_overlap a b c d = Ok v ->
@@ -114,54 +120,73 @@ Proof.
   unfold best_common, in_range. repeat split; try lia. intros w Hw1 Hw2; apply H3; assumption.
 Qed.
 
-(* the asymmetric core: m is the master *)
-Lemma run_agreement m s om os :
-  (match eval_hello s m with
-   | Exc t => (Failed "peer-hung-up", Failed t)
-   | Ok _ =>
-     match master_decide m s with
-     | Exc t => (Failed t, Failed "RemoteNegotiationError")
-     | Ok d =>
-       match slave_accept s d with
-       | Exc t => (Failed "peer-hung-up", Failed t)
-       | Ok p => (Banana {| p_version := d_version d; p_vocab := d_vocab d |}, Banana p)
-       end
-     end
-   end) = (om, os) ->
-  (exists p, om = Banana p /\ os = Banana p /\ agreed m s p) \/
-  (exists w1 w2, om = Failed w1 /\ os = Failed w2).
+(* what the decider computes on its own: the highest common version and the highest common table *)
+Definition best_params (a b : endpoint) (p : params) : Prop :=
+  best_common (ep_vmin a) (ep_vmax a) (ep_vmin b) (ep_vmax b) (p_version p) /\
+  best_common (ep_vocmin a) (ep_vocmax a) (ep_vocmin b) (ep_vocmax b) (p_vocab p).
+
+Lemma best_params_sym a b p : best_params a b p -> best_params b a p.
+Proof. intros [H1 H2]; split; apply best_common_sym; assumption. Qed.
+
+Lemma agreed_best_params a b p : agreed a b p -> best_params a b p.
+Proof. intros (H1 & H2 & _); split; assumption. Qed.
+
+Lemma master_decide_best m s d : master_decide m s = Ok d -> best_params m s (params_of d) /\ d_hash d = ep_hash m (d_vocab d).
 Proof.
-  destruct (eval_hello s m) as [v0|t0] eqn:Eh; [|intros E; inversion E; right; eauto].
-  unfold master_decide. destruct (eval_hello m s) as [ver|t1] eqn:Em; [|intros E; inversion E; right; eauto].
-  destruct (best_overlap (ep_vocmin m) (ep_vocmax m) (ep_vocmin s) (ep_vocmax s)) as [idx|t2] eqn:Ev;
-    [|intros E; inversion E; right; eauto].
-  unfold slave_accept; cbn [d_version d_vocab d_hash].
-  destruct (ep_accepts s ver); cbn [negb]; [|intros E; inversion E; right; eauto].
-  destruct (check_inrange (ep_vocmin s) (ep_vocmax s) idx) as [u|t3] eqn:Ec; [|intros E; inversion E; right; eauto].
-  destruct ((hash_checked_from_index <=? idx) && negb (ep_hash s idx =? ep_hash m idx)) eqn:Eg;
-    intros E; inversion E; subst; [right; eauto|].
-  left. eexists; split; [reflexivity|split; [reflexivity|]]. unfold agreed; cbn [p_version p_vocab]. split; [|split].
-  - apply best_overlap_common; exact Em.
-  - apply best_overlap_common; exact Ev.
-  - intros Hi. apply andb_false_iff in Eg as [Eg|Eg].
-    + apply Z.leb_gt in Eg. lia.
-    + apply negb_false_iff, Z.eqb_eq in Eg. congruence.
+  unfold master_decide, eval_hello. destruct (best_overlap (ep_vmin m) _ _ _) as [ver|] eqn:E1; [|discriminate].
+  destruct (best_overlap (ep_vocmin m) _ _ _) as [idx|] eqn:E2; [|discriminate]. intros E; inversion E; subst; cbn.
+  split; [split; cbn; apply best_overlap_common; assumption|reflexivity].
 Qed.
 
+(* the three ways one attempt can end, seen from the decider m and the other end s *)
+Definition both_switched (m s : endpoint) (om os : outcome) : Prop := exists p, om = Banana p /\ os = Banana p /\ agreed m s p.
+Definition both_abandoned (om os : outcome) : Prop := exists w1 w2, om = Failed w1 /\ os = Failed w2.
+Definition decider_switched_alone (m s : endpoint) (om os : outcome) : Prop :=
+  exists p w, om = SwitchedThenLost p /\ os = Failed w /\ best_params m s p.
+
+(* the asymmetric core: m is the master *)
+Lemma run_agreement m s om os :
+  run m s = (om, os) ->
+  both_switched m s om os \/ both_abandoned om os \/ decider_switched_alone m s om os.
+Proof.
+  unfold run. destruct (master_decide m s) as [d|tm] eqn:Ed.
+  2:{ destruct (eval_hello s m); intros E; inversion E; right; left; red; eauto. }
+  pose proof (master_decide_best _ _ _ Ed) as [Bp Hh].
+  destruct (eval_hello s m) as [v0|ts] eqn:Eh.
+  2:{ intros E; inversion E; right; right; red; eauto. }
+  unfold slave_accept.
+  destruct (ep_accepts s (d_version d)); cbn [negb]; [|intros E; inversion E; right; right; red; eauto].
+  destruct (check_inrange (ep_vocmin s) (ep_vocmax s) (d_vocab d)) as [u|t3] eqn:Ec; [|intros E; inversion E; right; right; red; eauto].
+  destruct ((hash_checked_from_index <=? d_vocab d) && negb (ep_hash s (d_vocab d) =? d_hash d)) eqn:Eg;
+    intros E; inversion E; subst; [right; right; red; eauto|].
+  left. exists (params_of d). split; [reflexivity|split; [reflexivity|]]. destruct Bp as [B1 B2].
+  unfold agreed. split; [exact B1|split; [exact B2|]]. cbn [params_of p_vocab].
+  intros Hi. apply andb_false_iff in Eg as [Eg|Eg].
+  - apply Z.leb_gt in Eg. lia.
+  - apply negb_false_iff, Z.eqb_eq in Eg. congruence.
+Qed.
+
+(* "either both switch to the RPC protocol with identical parameters ... or both abandon the connection" is FALSE of the code and
+   of the faithful model (agreement_two_way_refuted below); what holds for any two endpoints with distinct ids is the THREE-way
+   statement: identical parameters on both sides, or both abandon before anything was created, or -- the non-decider refused after
+   the decision had been sent -- the DECIDER ALONE has switched (with the highest common version and table) and then loses the
+   connection, while the non-decider abandons with its error.  Never does the non-decider switch alone, never do the two ends run
+   with different parameters. *)
 Theorem agreement a b oa ob :
   ep_id a <> ep_id b -> negotiate a b = (oa, ob) ->
-  (exists p, oa = Banana p /\ ob = Banana p /\ agreed a b p) \/
-  (exists w1 w2, oa = Failed w1 /\ ob = Failed w2).
+  both_switched a b oa ob \/ both_abandoned oa ob \/
+  (i_am_master (ep_id a) (ep_id b) = true /\ decider_switched_alone a b oa ob) \/
+  (i_am_master (ep_id b) (ep_id a) = true /\ decider_switched_alone b a ob oa).
 Proof.
   intros Hne. unfold negotiate.
   destruct (i_am_master (ep_id a) (ep_id b)) eqn:Ma.
-  - apply run_agreement.
+  - intros E. destruct (run_agreement _ _ _ _ E) as [H|[H|H]]; auto.
   - destruct (i_am_master (ep_id b) (ep_id a)) eqn:Mb.
-    + match goal with |- (let '(x, y) := ?r in _) = _ -> _ => destruct r as [ob' oa'] eqn:Er end.
-      intros E; inversion E; subst.
-      apply run_agreement in Er. destruct Er as [(p & -> & -> & Hp)|(w1 & w2 & -> & ->)].
+    + destruct (run b a) as [ob' oa'] eqn:Er. unfold swap; cbn [fst snd]. intros E; inversion E; subst.
+      destruct (run_agreement _ _ _ _ Er) as [(p & -> & -> & Hp)|[(w1 & w2 & -> & ->)|H]].
       * left; exists p; split; [reflexivity|split; [reflexivity|]]. apply agreed_sym; exact Hp.
-      * right; eauto.
+      * right; left; red; eauto.
+      * right; right; right; auto.
     + pose proof (one_decider a b Hne) as H1. unfold masters in H1. rewrite Ma, Mb in H1. discriminate.
 Qed.
 
@@ -272,91 +297,207 @@ Proof.
   exists i. split; [exact H4|split; [exact H3|split; [intros j Ha Hb; apply H5; assumption|intros H; symmetry; auto]]].
 Qed.
 
+(* the two exceptions negotiate.py reports as a failed negotiation (tokens.NegotiationError, RemoteNegotiationError).  The loss of an
+   established connection is NOT one of them: an end that has switched and then loses the connection is SwitchedThenLost *)
 Definition negotiation_error (t : string) : Prop :=
-  t = "NegotiationError"%string \/ t = "RemoteNegotiationError"%string \/ t = "peer-hung-up"%string.
+  t = "NegotiationError"%string \/ t = "RemoteNegotiationError"%string.
 
-(* the asymmetric core, exactly: with the class invariant, the run succeeds exactly when the two are compatible, and every
-   failure is a negotiation error (never the AttributeError of a missing accept method) *)
-Lemma run_exact m s :
-  implements_own_range s ->
-  let r := match eval_hello s m with
-   | Exc t => (Failed "peer-hung-up", Failed t)
-   | Ok _ =>
-     match master_decide m s with
-     | Exc t => (Failed t, Failed "RemoteNegotiationError")
-     | Ok d =>
-       match slave_accept s d with
-       | Exc t => (Failed "peer-hung-up", Failed t)
-       | Ok p => (Banana {| p_version := d_version d; p_vocab := d_vocab d |}, Banana p)
-       end
-     end
-   end in
-  (compatible m s -> exists p, r = (Banana p, Banana p)) /\
-  (~ compatible m s -> exists w1 w2, r = (Failed w1, Failed w2) /\ negotiation_error w1 /\ negotiation_error w2).
+(* the two pairs of ranges meet: exactly then the decider SENDS a decision (decision_sent_iff) *)
+Definition ranges_meet (a b : endpoint) : Prop :=
+  (exists v, in_range (ep_vmin a) (ep_vmax a) v /\ in_range (ep_vmin b) (ep_vmax b) v) /\
+  (exists i, in_range (ep_vocmin a) (ep_vocmax a) i /\ in_range (ep_vocmin b) (ep_vocmax b) i).
+
+Lemma ranges_meet_sym a b : ranges_meet a b -> ranges_meet b a.
+Proof. intros ((v & H1 & H2) & (i & H3 & H4)). split; [exists v|exists i]; auto. Qed.
+
+Lemma compatible_ranges_meet a b : compatible a b -> ranges_meet a b.
+Proof. intros (Hv & (i & H3 & H4 & _)). split; [exact Hv|exists i; auto]. Qed.
+
+Lemma best_overlap_some a b c d : (exists v, best_overlap a b c d = Ok v) <-> (exists v, in_range a b v /\ in_range c d v).
 Proof.
-  intros Inv. cbv zeta. unfold negotiation_error.
-  assert (Tag : forall a b c d t, best_overlap a b c d = Exc t -> t = "NegotiationError"%string).
-  { intros a b c d t. unfold best_overlap. cbv zeta.
-    destruct (Z.ltb _ _); [intros E; inversion E; reflexivity|]. destruct (Z.ltb _ _); intros E; inversion E; reflexivity. }
-  assert (TagC : forall a b c t, check_inrange a b c = Exc t -> t = "NegotiationError"%string).
-  { intros a b c t. unfold check_inrange. destruct (orb _ _); intros E; inversion E; reflexivity. }
-  destruct (eval_hello s m) as [v0|t0] eqn:Eh.
-  2:{ split.
-      - intros ((v & Hm & Hs) & _). exfalso. unfold eval_hello in Eh.
-        assert (X : exists t, best_overlap (ep_vmin s) (ep_vmax s) (ep_vmin m) (ep_vmax m) = Exc t) by eauto.
-        pose proof (proj1 (best_overlap_exc _ _ _ _) X) as X'. apply (X' v). unfold in_range in *. lia.
-      - intros _. do 2 eexists. split; [reflexivity|]. split; [auto|]. left. eapply Tag. exact Eh. }
-  unfold master_decide. destruct (eval_hello m s) as [ver|t1] eqn:Em.
-  2:{ exfalso. unfold eval_hello in *. apply best_overlap_sym in Eh. congruence. }
-  unfold eval_hello in Em, Eh. pose proof (best_overlap_common _ _ _ _ _ Em) as (Vm & Vs & Vmax).
-  destruct (best_overlap (ep_vocmin m) (ep_vocmax m) (ep_vocmin s) (ep_vocmax s)) as [idx|t2] eqn:Ev.
-  2:{ split.
-      - intros (_ & (i & Hm & Hs & _)). exfalso.
-        assert (X : exists t, best_overlap (ep_vocmin m) (ep_vocmax m) (ep_vocmin s) (ep_vocmax s) = Exc t) by eauto.
-        pose proof (proj1 (best_overlap_exc _ _ _ _) X) as X'. apply (X' i). unfold in_range in *. lia.
-      - intros _. do 2 eexists. split; [reflexivity|]. split; [left; eapply Tag; exact Ev|auto]. }
-  pose proof (best_overlap_common _ _ _ _ _ Ev) as (Im & Is & Imax).
-  unfold slave_accept; cbn [d_version d_vocab d_hash].
-  rewrite (Inv ver) by (unfold in_range in Vs; lia). cbn [negb].
-  pose proof (proj2 (check_inrange_ok (ep_vocmin s) (ep_vocmax s) idx) Is) as Ec. rewrite Ec.
-  destruct ((hash_checked_from_index <=? idx) && negb (ep_hash s idx =? ep_hash m idx)) eqn:Eg.
-  - apply andb_true_iff in Eg as [G1 G2]. apply Z.leb_le in G1. apply negb_true_iff, Z.eqb_neq in G2. split.
-    + intros (_ & (i & Hm & Hs & Hmax & Hh)). exfalso.
-      assert (i = idx) by (apply Z.le_antisymm; [apply Imax; assumption|apply Hmax; assumption]). subst i.
-      apply G2. symmetry. apply Hh. exact G1.
-    + intros _. do 2 eexists. split; [reflexivity|]. auto.
-  - split.
-    + intros _. eexists; reflexivity.
-    + intros NC. exfalso. apply NC. split; [exists ver; split; assumption|].
-      exists idx. split; [exact Im|split; [exact Is|split; [exact Imax|]]].
-      intros Hi. apply andb_false_iff in Eg as [Eg|Eg]; [apply Z.leb_gt in Eg; lia|].
-      apply negb_false_iff, Z.eqb_eq in Eg. congruence.
+  split.
+  - intros (v & H). apply best_overlap_common in H. destruct H as (H1 & H2 & _). eauto.
+  - intros (v & H1 & H2). destruct (best_overlap a b c d) as [w|t] eqn:E; [eauto|]. exfalso.
+    assert (X : exists t, best_overlap a b c d = Exc t) by eauto.
+    apply (proj1 (best_overlap_exc a b c d) X v). unfold in_range in *. lia.
 Qed.
 
-(* "either both switch ... or both abandon the connection with a negotiation error", exactly when: for every two endpoints
-   with distinct ids that satisfy the class invariant, both get the same parameters iff the ranges meet and the table
-   chosen has the same hash on both sides; otherwise both fail, each with a negotiation error *)
+(* the decider sends a decision exactly when both pairs of ranges meet *)
+Theorem decision_sent_iff m s : (exists d, master_decide m s = Ok d) <-> ranges_meet m s.
+Proof.
+  unfold master_decide, eval_hello, ranges_meet. rewrite <- !best_overlap_some. split.
+  - intros (d & H). destruct (best_overlap (ep_vmin m) _ _ _) as [ver|]; [|discriminate].
+    destruct (best_overlap (ep_vocmin m) _ _ _) as [idx|]; [|discriminate]. eauto.
+  - intros ((v & ->) & (i & ->)). eauto.
+Qed.
+
+Lemma best_overlap_tag a b c d t : best_overlap a b c d = Exc t -> t = "NegotiationError"%string.
+Proof.
+  unfold best_overlap. cbv zeta.
+  destruct (Z.ltb _ _); [intros E; inversion E; reflexivity|]. destruct (Z.ltb _ _); intros E; inversion E; reflexivity.
+Qed.
+
+(* the asymmetric core, exactly, with the class invariant on the non-decider (never the AttributeError of a missing accept method):
+   - compatible: both switch with the same parameters;
+   - the ranges do not meet (no decision is ever sent): both abandon, each with a negotiation error;
+   - the ranges meet but the table chosen differs in content: the decision IS sent, the decider has switched with the highest
+     common version / table and only loses the connection; the non-decider abandons with NegotiationError *)
+Lemma run_exact m s :
+  implements_own_range s ->
+  (compatible m s -> exists p, run m s = (Banana p, Banana p)) /\
+  (~ ranges_meet m s -> exists w1 w2, run m s = (Failed w1, Failed w2) /\ negotiation_error w1 /\ negotiation_error w2) /\
+  (ranges_meet m s -> ~ compatible m s ->
+     exists p, best_params m s p /\ run m s = (SwitchedThenLost p, Failed "NegotiationError")).
+Proof.
+  intros Inv. unfold run, negotiation_error.
+  destruct (master_decide m s) as [d|tm] eqn:Ed.
+  2:{ assert (NM : ~ ranges_meet m s) by (intros R; apply decision_sent_iff in R as (d & R); congruence).
+      assert (Tm : tm = "NegotiationError"%string).
+      { revert Ed. unfold master_decide, eval_hello. destruct (best_overlap (ep_vmin m) _ _ _) eqn:E1.
+        - destruct (best_overlap (ep_vocmin m) _ _ _) eqn:E2; [discriminate|]. intros E; inversion E; subst. eapply best_overlap_tag; exact E2.
+        - intros E; inversion E; subst. eapply best_overlap_tag; exact E1. }
+      split; [intros C; exfalso; apply NM, compatible_ranges_meet, C|].
+      split; [|intros R; exfalso; exact (NM R)].
+      intros _. destruct (eval_hello s m) as [v0|ts] eqn:Eh.
+      - do 2 eexists. split; [reflexivity|]. auto.
+      - do 2 eexists. split; [reflexivity|]. split; [auto|]. left. eapply best_overlap_tag; exact Eh. }
+  assert (RM : ranges_meet m s) by (apply decision_sent_iff; eauto).
+  pose proof (master_decide_best _ _ _ Ed) as [[B1 B2] Hh].
+  cbn [params_of p_version p_vocab] in B1, B2.
+  destruct B1 as (Vm & Vs & Vmax), B2 as (Im & Is & Imax).
+  destruct (eval_hello s m) as [v0|ts] eqn:Eh.
+  2:{ exfalso. unfold eval_hello in Eh. destruct RM as ((v & H1 & H2) & _).
+      assert (X : exists t, best_overlap (ep_vmin s) (ep_vmax s) (ep_vmin m) (ep_vmax m) = Exc t) by eauto.
+      apply (proj1 (best_overlap_exc _ _ _ _) X v). unfold in_range in *. lia. }
+  unfold slave_accept.
+  rewrite (Inv (d_version d)) by (unfold in_range in Vs; lia). cbn [negb].
+  rewrite (proj2 (check_inrange_ok (ep_vocmin s) (ep_vocmax s) (d_vocab d)) Is).
+  rewrite Hh.
+  destruct ((hash_checked_from_index <=? d_vocab d) && negb (ep_hash s (d_vocab d) =? ep_hash m (d_vocab d))) eqn:Eg.
+  - apply andb_true_iff in Eg as [G1 G2]. apply Z.leb_le in G1. apply negb_true_iff, Z.eqb_neq in G2.
+    assert (NC : ~ compatible m s).
+    { intros (_ & (i & Hm & Hs & Hmax & Hh')).
+      assert (i = d_vocab d) by (apply Z.le_antisymm; [apply Imax; assumption|apply Hmax; assumption]). subst i.
+      apply G2. symmetry. apply Hh'. exact G1. }
+    split; [intros C; exfalso; exact (NC C)|]. split; [intros NM; exfalso; exact (NM RM)|].
+    intros _ _. exists (params_of d). split; [|reflexivity].
+    split; cbn [params_of p_version p_vocab]; (split; [assumption|split; assumption]).
+  - assert (C : compatible m s).
+    { split; [exists (d_version d); split; assumption|].
+      exists (d_vocab d). split; [exact Im|split; [exact Is|split; [exact Imax|]]].
+      intros Hi. apply andb_false_iff in Eg as [Eg|Eg]; [apply Z.leb_gt in Eg; lia|].
+      apply negb_false_iff, Z.eqb_eq in Eg. congruence. }
+    split; [intros _; eexists; reflexivity|]. split; [intros NM; exfalso; exact (NM RM)|].
+    intros _ NC. exfalso. exact (NC C).
+Qed.
+
+(* the outcome of the attempt with the decider's result first *)
+Definition decider_first (a b : endpoint) (r : outcome * outcome) : outcome * outcome :=
+  if i_am_master (ep_id a) (ep_id b) then r else swap r.
+
+(* "either both switch ... with identical parameters ... or both abandon the connection with a negotiation error", EXACTLY: for every
+   two endpoints with distinct ids that satisfy the class invariant,
+   (1) both get the same parameters iff the ranges meet and the table chosen has the same hash on both sides (compatible);
+   (2) when the ranges do not meet -- the failure happens BEFORE a decision is sent -- both abandon, each with a negotiation error;
+   (3) when the ranges meet but the two are not compatible -- the failure happens AFTER the decision was sent -- the non-decider
+       abandons with NegotiationError, and the decider has ALREADY switched with the highest common version and table: it ends
+       SwitchedThenLost, not with a negotiation error.  (3) is where the real code departs from the property text (known finding
+       oracle/decider-switched-before-refusal). *)
 Theorem agreement_exact a b :
   ep_id a <> ep_id b -> implements_own_range a -> implements_own_range b ->
   (compatible a b -> exists p, negotiate a b = (Banana p, Banana p) /\ agreed a b p) /\
-  (~ compatible a b -> exists w1 w2, negotiate a b = (Failed w1, Failed w2) /\ negotiation_error w1 /\ negotiation_error w2).
+  (~ ranges_meet a b -> exists w1 w2, negotiate a b = (Failed w1, Failed w2) /\ negotiation_error w1 /\ negotiation_error w2) /\
+  (ranges_meet a b -> ~ compatible a b ->
+     exists p, best_params a b p /\ decider_first a b (negotiate a b) = (SwitchedThenLost p, Failed "NegotiationError")).
 Proof.
   intros Hne Ia Ib.
   assert (Ag : forall p, negotiate a b = (Banana p, Banana p) -> agreed a b p).
-  { intros p E. destruct (agreement a b _ _ Hne E) as [(q & E1 & _ & Hq)|(w1 & w2 & E1 & _)]; [inversion E1; subst; exact Hq|discriminate]. }
-  unfold negotiate in *.
+  { intros p E. destruct (agreement a b _ _ Hne E) as [(q & E1 & _ & Hq)|[(w1 & w2 & E1 & _)|[(_ & (q & w & E1 & _))|(_ & (q & w & E1 & _))]]];
+      [inversion E1; subst; exact Hq|discriminate|discriminate|discriminate]. }
+  unfold decider_first, negotiate in *.
   destruct (i_am_master (ep_id a) (ep_id b)) eqn:Ma.
-  - pose proof (run_exact a b Ib) as [R1 R2]. split.
+  - pose proof (run_exact a b Ib) as (R1 & R2 & R3). split; [|split].
     + intros C. destruct (R1 C) as (p & E). exists p. split; [exact E|apply Ag; exact E].
-    + intros NC. exact (R2 NC).
+    + exact R2.
+    + exact R3.
   - destruct (i_am_master (ep_id b) (ep_id a)) eqn:Mb.
-    + pose proof (run_exact b a Ia) as [R1 R2]. cbv zeta in R1, R2. split.
+    + pose proof (run_exact b a Ia) as (R1 & R2 & R3). split; [|split].
       * intros C. destruct (R1 (compatible_sym _ _ C)) as (p & E). exists p.
-        assert (E' : (let '(ob, oa) := (Banana p, Banana p) in (oa, ob)) = (Banana p, Banana p)) by reflexivity.
         rewrite E in Ag |- *. split; [reflexivity|apply Ag; reflexivity].
-      * intros NC. destruct R2 as (w1 & w2 & E & N1 & N2); [intros C; apply NC; apply compatible_sym; exact C|].
+      * intros NM. destruct R2 as (w1 & w2 & E & N1 & N2); [intros R; apply NM, ranges_meet_sym, R|].
         rewrite E. exists w2, w1. auto.
+      * intros RM NC. destruct R3 as (p & Bp & E); [apply ranges_meet_sym, RM|intros C; apply NC, compatible_sym, C|].
+        exists p. split; [apply best_params_sym, Bp|]. rewrite E. reflexivity.
     + pose proof (one_decider a b Hne) as H1. unfold masters in H1. rewrite Ma, Mb in H1. discriminate.
+Qed.
+
+(* "both abandon the connection with a negotiation error" happens exactly when the failure precedes the decision: *)
+Theorem both_abandon_iff_no_decision a b :
+  ep_id a <> ep_id b -> implements_own_range a -> implements_own_range b ->
+  ((exists w1 w2, negotiate a b = (Failed w1, Failed w2)) <-> ~ ranges_meet a b) /\
+  ((exists p, negotiate a b = (Banana p, Banana p)) <-> compatible a b).
+Proof.
+  intros Hne Ia Ib. destruct (agreement_exact a b Hne Ia Ib) as (E1 & E2 & E3).
+  assert (Sw : forall p w, decider_first a b (negotiate a b) = (SwitchedThenLost p, Failed w) ->
+               (forall w1 w2, negotiate a b <> (Failed w1, Failed w2)) /\ (forall q, negotiate a b <> (Banana q, Banana q))).
+  { intros p w. unfold decider_first, swap. destruct (i_am_master (ep_id a) (ep_id b)); destruct (negotiate a b) as [x y]; cbn [fst snd];
+      intros E; inversion E; subst; split; intros; discriminate. }
+  split; split.
+  - intros (w1 & w2 & E) RM.
+    assert (NC : ~ compatible a b) by (intros C; destruct (E1 C) as (p & E' & _); congruence).
+    destruct (E3 RM NC) as (p & _ & E'). apply Sw in E' as [F _]. exact (F _ _ E).
+  - intros NM. destruct (E2 NM) as (w1 & w2 & E & _). eauto.
+  - intros (p & E).
+    assert (RM : ranges_meet a b).
+    { destruct (agreement a b _ _ Hne E) as [(q & E' & _ & Hq)|[(w1 & w2 & E' & _)|[(_ & (q & w & E' & _))|(_ & (q & w & E' & _))]]];
+        try discriminate. inversion E'; subst. destruct Hq as ((H1 & H2 & _) & (H3 & H4 & _) & _). split; eexists; eauto. }
+    destruct (agreement a b _ _ Hne E) as [(q & E' & _ & Hq)|[(w1 & w2 & E' & _)|[(_ & (q & w & E' & _))|(_ & (q & w & E' & _))]]];
+      try discriminate. inversion E'; subst q. destruct Hq as ((H1 & H2 & H2') & (H3 & H4 & H5) & H6).
+    split; [eexists; eauto|]. exists (p_vocab p). split; [exact H3|split; [exact H4|split; [exact H5|exact H6]]].
+  - intros C. destruct (E1 C) as (p & E & _). eauto.
+Qed.
+
+(* the two-way statement of the property text -- for two endpoints with distinct ids that satisfy the class invariant, either both
+   switch with the same parameters or both abandon -- is FALSE: both ends offer version 3..3 and table 1..1, and their table 1
+   differs (the real code: the same ranges, the hash in the decision rewritten in flight; replayed on every run) *)
+Definition ex_ra := {| ep_id := [98]; ep_vmin := 3; ep_vmax := 3; ep_vocmin := 1; ep_vocmax := 1;
+                       ep_hash := fun i => i * 7 + 1; ep_accepts := fun v => (1 <=? v) && (v <=? 3) |}.
+Definition ex_rb := {| ep_id := [97]; ep_vmin := 3; ep_vmax := 3; ep_vocmin := 1; ep_vocmax := 1;
+                       ep_hash := fun i => i * 7; ep_accepts := fun v => (1 <=? v) && (v <=? 3) |}.
+
+Lemma ex_r_inv : implements_own_range ex_ra /\ implements_own_range ex_rb /\ ep_id ex_ra <> ep_id ex_rb.
+Proof.
+  split; [|split; [|discriminate]]; intros v Hv; cbn in *; assert (v = 3) by lia; subst; reflexivity.
+Qed.
+
+Theorem agreement_two_way_refuted :
+  exists a b oa ob, ep_id a <> ep_id b /\ implements_own_range a /\ implements_own_range b /\ negotiate a b = (oa, ob) /\
+    ~ ((exists p, oa = Banana p /\ ob = Banana p) \/ (exists w1 w2, oa = Failed w1 /\ ob = Failed w2)) /\
+    oa = SwitchedThenLost {| p_version := 3; p_vocab := 1 |} /\ ob = Failed "NegotiationError".
+Proof.
+  exists ex_ra, ex_rb. do 2 eexists. destruct ex_r_inv as (Ia & Ib & Hne).
+  split; [exact Hne|split; [exact Ia|split; [exact Ib|split; [vm_compute; reflexivity|split; [|split; reflexivity]]]]].
+  intros [(p & E & _)|(w1 & w2 & E & _)]; discriminate.
+Qed.
+
+(* the refused-decision region of agreement_exact is inhabited, and so is the region where both abandon *)
+Example refused_decision_example : ranges_meet ex_ra ex_rb /\ ~ compatible ex_ra ex_rb.
+Proof.
+  split.
+  - split; [exists 3|exists 1]; unfold in_range; cbn; lia.
+  - intros (_ & (i & Hi & _ & _ & Hh)). unfold in_range in Hi. cbn in Hi, Hh. assert (i = 1) by lia. subst.
+    assert (X : hash_checked_from_index <= 1) by (unfold hash_checked_from_index; lia). specialize (Hh X). discriminate.
+Qed.
+
+Definition ex_na := {| ep_id := [98]; ep_vmin := 1; ep_vmax := 2; ep_vocmin := 0; ep_vocmax := 1;
+                       ep_hash := fun i => i * 7; ep_accepts := fun v => (1 <=? v) && (v <=? 3) |}.
+Definition ex_nb := {| ep_id := [97]; ep_vmin := 3; ep_vmax := 3; ep_vocmin := 0; ep_vocmax := 1;
+                       ep_hash := fun i => i * 7; ep_accepts := fun v => (1 <=? v) && (v <=? 3) |}.
+Example no_decision_example :
+  ~ ranges_meet ex_na ex_nb /\ negotiate ex_na ex_nb = (Failed "NegotiationError", Failed "NegotiationError").
+Proof.
+  split; [|vm_compute; reflexivity].
+  intros ((v & H1 & H2) & _). unfold in_range in *. cbn in *. lia.
 Qed.
 
 (* the non-decider checks the decided version only against the accept methods it HAS, not against the range it offered nor
